@@ -192,6 +192,9 @@ inline void finish(Json extra) {
     extra.kv("t", "stats").kv("seed", st().seed).kv("from", st().from).kv("count", st().count)
         .kv("violations", st().violations.load());
     emitLine(extra.str());
+    // After a monitor violation the engines abandon the objects of the failed case instead of running
+    // more library code on them: the leak report at exit would only repeat that. Leave without it.
+    if (st().violations.load() > 0) _exit(0);
 }
 
 // FNV-1a style incremental hash for fingerprints
